@@ -671,6 +671,15 @@ def enumerated(tier):
                 for n in nums + [max(nums) + 1, 99, -1]:
                     yield {"kind": "convert", "msg": m, "spec": {fd.name: [n, n] if fd.is_repeated else n}}
         yield {"kind": "convert", "msg": m, "spec": {}}
+        # every PAIR of scalar enum fields of one message x every pair of their wire numbers: a field's conversion does
+        # not depend on what another field holds
+        efs = [fd for fd in d.fields if fd.type == FD.TYPE_ENUM and not fd.is_repeated]
+        for i, fa in enumerate(efs):
+            for fb in efs[i + 1:]:
+                for na in sorted({v.number for v in fa.enum_type.values}):
+                    for nb in sorted({v.number for v in fb.enum_type.values}):
+                        if na or nb:
+                            yield {"kind": "convert", "msg": m, "spec": {fa.name: na, fb.name: nb}}
     # history independence: base classes / arbitrary classes instantiated first in a fresh interpreter
     names = model_class_names()
     orders = [["EntityState"], ["EntityInfo"], ["EntityInfo", "EntityState", "APIModelBase"], ["APIModelBase"], names[::-1][:12], names[:12], ["SensorState", "EntityState", "SensorInfo"]]
